@@ -10,7 +10,7 @@ use msql_srv::{Column, ColumnFlags, ColumnType};
 // ------------------------------------------------------------------------------------------------
 // C14
 
-const EDGE: [u64; 14] = [0, 1, 250, 251, 252, 65_535, 65_536, (1 << 24) - 1, 1 << 24, 1 << 32, 1 << 63, u64::MAX, u64::MAX - 1, 255];
+const EDGE: [u64; 20] = [0, 1, 250, 251, 252, 65_535, 65_536, (1 << 24) - 1, 1 << 24, 1 << 32, 1 << 63, u64::MAX, u64::MAX - 1, 255, (1 << 31) - 1, 1 << 31, (1 << 32) - 1, (1 << 63) - 1, (1 << 16) + 1, 256];
 
 fn lenenc_class(v: u64) -> &'static str {
     match v {
@@ -362,7 +362,9 @@ pub fn run_c09(ctx: &Ctx) -> Report {
         let counts: &[usize] = if ctx.miri { &[0, 1, 2] } else if ctx.thorough { &[0, 1, 2, 3, 250, 251, 252, 300, 1000] } else { &[0, 1, 2, 3, 250, 251, 252, 300] };
         let np = if rng.chance(1, 6) { *rng.pick(counts) } else { rng.below(4) as usize };
         let nc = if rng.chance(1, 6) { *rng.pick(counts) } else { rng.below(5) as usize };
-        let nr = if rng.chance(1, 6) { (*rng.pick(counts)).max(1) } else { rng.range(1, 5) as usize };
+        // resultset headers can carry any number of columns (the count is length-encoded): a few
+        // cases cross 2^16 (PREPARE replies cannot: their counts are 16-bit fields)
+        let nr = if !ctx.miri && (i == 7 || (ctx.thorough && i % 5000 == 11)) { *rng.pick(&[65_535usize, 65_536, 65_537, 70_000]) } else if rng.chance(1, 6) { (*rng.pick(counts)).max(1) } else { rng.range(1, 5) as usize };
         let big = i % 5 == 0;
         let params = gen_cols(rng, np, big);
         let pcols = gen_cols(rng, nc, big);
